@@ -665,6 +665,10 @@ class Interp:
     def ev_Subscript(self, e):
         b = self.ev(e.value)
         self.ev(e.slice)
+        if isinstance(e.value, ast.Name) and not isinstance(e.slice, ast.Slice):
+            exact = self.__dict__.get("_cdispval", {}).get(e.value.id)
+            if exact is not None and e.value.id in self._const_displays():
+                return exact
         if self.is_fancy(e.slice):
             return AV([("F", self.site(e))], b.elem, b.funcs, ())
         return b.contents()
@@ -1187,8 +1191,45 @@ class Interp:
     def st_Expr(self, s):
         self.ev(s.value)
 
+    def _const_displays(self):
+        """Local names bound exactly once, to a dict/list/tuple display, and only ever read by
+        subscripting / membership / iteration: reading an element of such a table yields exactly one
+        of the displayed values (not "a value or its contents", which is all the collapsed container
+        model can say)."""
+        cache = self.eng.__dict__.setdefault("_cdisp_cache", {})
+        cd = cache.get(self.f.qual)
+        if cd is not None:
+            return cd
+        stores, bad, disp = {}, set(), {}
+        parents = {}
+        for n in ast.walk(self.f.node):
+            for ch in ast.iter_child_nodes(n):
+                parents[id(ch)] = n
+        for n in ast.walk(self.f.node):
+            if isinstance(n, ast.Name) and isinstance(n.ctx, (ast.Store, ast.Del)):
+                stores[n.id] = stores.get(n.id, 0) + 1
+            if isinstance(n, ast.Assign) and len(n.targets) == 1 and isinstance(n.targets[0], ast.Name) and \
+                    isinstance(n.value, (ast.Dict, ast.List, ast.Tuple)) and \
+                    not any(isinstance(x, ast.Starred) or x is None
+                            for x in (n.value.keys if isinstance(n.value, ast.Dict) else n.value.elts)):
+                disp[n.targets[0].id] = n
+            if isinstance(n, ast.Name) and isinstance(n.ctx, ast.Load):
+                par = parents.get(id(n))
+                fine = (isinstance(par, ast.Subscript) and par.value is n and isinstance(par.ctx, ast.Load)) or \
+                    (isinstance(par, ast.Compare) and n in par.comparators) or \
+                    (isinstance(par, (ast.For, ast.comprehension)) and par.iter is n)
+                if not fine:
+                    bad.add(n.id)
+        cd = {k: v for k, v in disp.items() if stores.get(k) == 1 and k not in bad and k not in self.f.allparams}
+        cache[self.f.qual] = cd
+        return cd
+
     def st_Assign(self, s):
         v = self.ev(s.value)
+        if len(s.targets) == 1 and isinstance(s.targets[0], ast.Name) and \
+                self._const_displays().get(s.targets[0].id) is s:
+            vals = s.value.values if isinstance(s.value, ast.Dict) else s.value.elts
+            self.__dict__.setdefault("_cdispval", {})[s.targets[0].id] = joinall(self.ev(x) for x in vals)
         pc = self.__dict__.setdefault("_pycont", set())
         for t in s.targets:
             if isinstance(t, ast.Name):
